@@ -128,6 +128,7 @@ func TestC13Migrate(t *testing.T) {
 		ds := doubles.NewRecDS()
 		seed := map[string][]byte{"/versions/current": []byte("2")}
 		expect := map[datatransfer.ChannelID]*doubles.StateView{}
+		expectRaw := map[datatransfer.ChannelID]cborx.M{} // the version-3 record each version-2 record must become, field by field
 		var order []datatransfer.ChannelID
 		for i := 0; i < n; i++ {
 			st := datatransfer.Status(c.Rng.Intn(19))
@@ -144,6 +145,7 @@ func TestC13Migrate(t *testing.T) {
 				panic(err)
 			}
 			expect[chid] = ev
+			expectRaw[chid] = v3
 			order = append(order, chid)
 			c.Mark("status=%s", st)
 		}
@@ -239,6 +241,28 @@ func TestC13Migrate(t *testing.T) {
 				probeC19(c, "migrated", p)
 				if d := doubles.Diff(expect[chid], v, true); len(d) > 0 {
 					c.Violation("C13", "field-changed "+fmt.Sprint(d), "migrated channel differs from its v2 record in %v\n want %s\n got  %s", d, expect[chid], v)
+				}
+				// ... and the stored version-3 record itself, field by field (what the accessors derive from it
+				// later - pause flags after the channel leaves its status, stage times - depends on the raw fields)
+				if raw, err := cborx.Decode(ds.Snapshot()["/3/"+chid.String()]); err == nil {
+					if rm, ok := raw.(map[string]any); ok {
+						var diff []string
+						for k, want := range expectRaw[chid] {
+							if got, has := rm[k]; !has || !bytes.Equal(cborx.Encode(got), cborx.Encode(want)) {
+								diff = append(diff, k)
+							}
+						}
+						for k := range rm {
+							if _, has := expectRaw[chid][k]; !has {
+								diff = append(diff, "+"+k)
+							}
+						}
+						sort.Strings(diff)
+						if len(diff) > 0 {
+							c.Violation("C13", "stored-field-changed "+fmt.Sprint(diff), "the stored version-3 record of a migrated channel (v2 status %v) differs from its version-2 record in raw field(s) %v", expect[chid].Status, diff)
+						}
+						c.Count("raw_records_compared", 1)
+					}
 				}
 				c.Count("records", 1)
 			}
